@@ -2,6 +2,7 @@ package props
 
 import (
 	"fmt"
+	"math"
 	"testing"
 
 	"pgregory.net/rapid"
@@ -92,7 +93,7 @@ func truthOperand(c *Case, prelude *string, name string, v lang.Value, prov stri
 	return nil, false
 }
 
-var truthPositions = []string{"if", "while", "ternary", "and-left", "and-right", "or-left", "or-right", "not", "not-not", "not-in-if", "not-in-ternary", "not-in-while", "run"}
+var truthPositions = []string{"if", "if-else", "if-empty-then", "if-empty-else", "elseif", "elseif-empty", "while", "ternary", "and-left", "and-right", "or-left", "or-right", "not", "not-not", "not-in-if", "not-in-ternary", "not-in-while", "run"}
 
 func truthScript(pos string, e lang.Expr) (string, func(truth bool, v lang.Value) lang.Value, bool) {
 	x := lang.ExprText(lang.Paren{X: e})
@@ -106,6 +107,16 @@ func truthScript(pos string, e lang.Expr) (string, func(truth bool, v lang.Value
 	switch pos {
 	case "if":
 		return `if ( ` + x + ` ) { return "T"; } return "F";`, pick, false
+	case "if-else":
+		return `if ( ` + x + ` ) { return "T"; } else { return "F"; }`, pick, false
+	case "if-empty-then":
+		return `if ( ` + x + ` ) { } else { return "F"; } return "T";`, pick, false
+	case "if-empty-else":
+		return `if ( ` + x + ` ) { return "T"; } else { } return "F";`, pick, false
+	case "elseif":
+		return `if ( false ) { return "X"; } else if ( ` + x + ` ) { return "T"; } return "F";`, pick, false
+	case "elseif-empty":
+		return `if ( false ) { } else if ( ` + x + ` ) { } else { return "F"; } return "T";`, pick, false
 	case "while":
 		return `n = 0; while ( ` + x + ` ) { n = n + 1; if ( n >= 1 ) { return "T"; } } return "F";`, pick, false
 	case "ternary":
@@ -264,7 +275,7 @@ func TestC05Table(t *testing.T) {
 func isBoolExpr(e lang.Expr) bool {
 	switch x := e.(type) {
 	case lang.Binary:
-		return x.Op == "&&" || x.Op == "||"
+		return x.Op == "&&" || x.Op == "||" || x.Op == "<" || x.Op == "<=" || x.Op == ">" || x.Op == ">="
 	case lang.Unary:
 		return x.Op == "!"
 	}
@@ -280,6 +291,32 @@ func TestC05Random(t *testing.T) {
 		nleaf := 0
 		var build func(d int) (lang.Expr, bool)
 		build = func(d int) (lang.Expr, bool) {
+			if gen.Uniform(rt, "cmpleaf", 6) == 0 {
+				// an ordering comparison of two host floats, NaN and the
+				// infinities included: a boolean like any other
+				specials := []float64{math.NaN(), math.Inf(1), math.Inf(-1), 0.5, 1, -1, 2.5, 0}
+				a := specials[gen.Uniform(rt, "cmpa", len(specials))]
+				b := specials[gen.Uniform(rt, "cmpb", len(specials))]
+				nleaf++
+				ea, _ := truthOperand(c, &prelude, fmt.Sprintf("ca%d", nleaf), lang.Float(a), "mapfield")
+				eb, _ := truthOperand(c, &prelude, fmt.Sprintf("cb%d", nleaf), lang.Float(b), "mapfield")
+				op := rapid.SampledFrom([]string{"<", "<=", ">", ">="}).Draw(rt, "cmpop")
+				var tr bool
+				switch op {
+				case "<":
+					tr = a < b
+				case "<=":
+					tr = a <= b
+				case ">":
+					tr = a > b
+				default:
+					tr = a >= b
+				}
+				if math.IsNaN(a) || math.IsNaN(b) {
+					col.Class("comparison-with-NaN")
+				}
+				return lang.Binary{Op: op, L: ea, R: eb}, tr
+			}
 			if d <= 0 || gen.Uniform(rt, "leaf", 3) == 0 {
 				v := rapid.SampledFrom(truthValues).Draw(rt, "val")
 				prov := rapid.SampledFrom(truthProvenances).Draw(rt, "prov")
@@ -309,7 +346,7 @@ func TestC05Random(t *testing.T) {
 			return lang.Binary{Op: "||", L: l, R: r}, tl || tr
 		}
 		e, want := build(rapid.IntRange(1, scale(4, 6)).Draw(rt, "depth"))
-		pos := rapid.SampledFrom([]string{"if", "while", "ternary", "run"}).Draw(rt, "pos")
+		pos := rapid.SampledFrom([]string{"if", "if-else", "if-empty-then", "if-empty-else", "elseif", "elseif-empty", "while", "ternary", "run"}).Draw(rt, "pos")
 		body, expect, useRun := truthScript(pos, e)
 		c.Script = prelude + body
 		c.UseRun = useRun
